@@ -449,25 +449,58 @@ def name_hypotheses(per_node):
 RENAME_IDS = {"candidate": "C12-rename-candidate-taken", "unnamed": "C12-rename-unnamed-shapes", "deep": "C12-rename-deep-nodes-skipped"}
 
 
+def finding_status(kid):
+    for k in vlib.load_known():
+        if k.get("id") == kid:
+            return k.get("status")
+    return None
+
+
+def report_finding(rep, kid, detail, case, extra=None):
+    """a recorded defect class was recognised: KNOWN-FINDING while it is recorded as known, a VIOLATION once it
+    is recorded as fixed (the defect is back).  Returns 1 when it became a violation."""
+    if finding_status(kid) == "known":
+        rep.known_finding(kid, detail)
+        return 0
+    d = {"case": case, "family": FAM, "finding": kid, "detail": detail}
+    d.update(extra or {})
+    rep.violation("a defect recorded as fixed is back: " + kid, d)
+    return 1
+
+
+def dup_class(path, name, before):
+    """which recorded rename defect explains two sibling shapes called [name] below [path]"""
+    if name == "":
+        return "unnamed"
+    if len(path) >= 2:
+        return "deep"
+    base, _, num = name.rpartition("_")
+    shapes_before = [nm for k, nm in before.get(path, []) if k == "s"]
+    if base and num.isdigit() and str(int(num)) == num and base in shapes_before and name in [nm for _, nm in before.get(path, [])]:
+        return "candidate"
+    return None
+
+
 def check_names(rep, case, before, after_impl, after_model, tag):
     """before/after: {path: [(kind,name)]}.  Returns (n correspondence diffs, n spec failures, n known)"""
     ncorr = nspec = nknown = 0
     if after_model is not None and shape_names(after_model) != shape_names(after_impl):
         ncorr += 1
-    hyp = name_hypotheses(before)
     for path, names in shape_names(after_impl).items():
-        if len(set(names)) == len(names):
-            continue
-        why = hyp.get(path, [])
-        agrees = after_model is not None and shape_names(after_model).get(path) == names
-        if why and agrees:
-            for w in why[:1]:
-                rep.known_finding(RENAME_IDS[w], "%s %s: %s" % (tag, "/".join(path) or "<root>", names))
-                nknown += 1
-        else:
-            rep.violation("sibling shapes share a name after RenameDuplicateShapes although the hypotheses of C12_rename_distinct hold",
-                          {"case": case, "family": FAM, "node": "/".join(path), "names": names, "model_agrees": agrees})
-            nspec += 1
+        dups = sorted({n for n in names if names.count(n) > 1})
+        for n in dups:
+            cls = dup_class(path, n, before)
+            agrees = after_model is not None and shape_names(after_model).get(path) == names
+            detail = "%s %s: %s" % (tag, "/".join(path) or "<root>", names)
+            if cls and (agrees or finding_status(RENAME_IDS[cls]) != "known"):
+                if report_finding(rep, RENAME_IDS[cls], detail, case, {"node": "/".join(path), "names": names}):
+                    nspec += 1
+                else:
+                    nknown += 1
+            else:
+                rep.violation("sibling shapes share a name after RenameDuplicateShapes although the hypothesis of C12_rename_distinct holds",
+                              {"case": case, "family": FAM, "node": "/".join(path), "names": names, "model_agrees": agrees})
+                nspec += 1
     return ncorr, nspec, nknown
 
 
@@ -537,8 +570,10 @@ def evaluate_case(rep, case, d, crashed_back=False):
         elif "share a name" in what:
             continue          # handled by check_names with the model
         if kid:
-            rep.known_finding(kid, "%s | %s | %s" % (case[:160], what, json.dumps(det)[:160]))
-            nknown += 1
+            if report_finding(rep, kid, "%s | %s | %s" % (case[:160], what, json.dumps(det)[:160]), case):
+                nspec += 1
+            else:
+                nknown += 1
         else:
             det = dict(det)
             det.update({"case": case, "family": FAM})
@@ -586,7 +621,7 @@ def run(tier, seed, replay=None):
         if crash is not None:
             err = crash.get("stderr", "")
             known_crash = False
-            if "NifFile.cpp:1736" in err and "OptimizeFor" in err:
+            if "OptimizeFor" in err and "vector<unsigned short" in err and "operator[]" in err:
                 # candidate: back-conversion of a model whose LE partitions have bone indices but no bones.
                 # Re-run without the back-conversion and look at the intermediate model.
                 rr = vlib.run_cases_robust(impl_bin, [FAM], [c + " back=0"], timeout_per_batch=600)[0]
@@ -597,7 +632,9 @@ def run(tier, seed, replay=None):
                     if mid and mid["ver"][2] == 83 and any(s["skinned"] and s.get("parts") and all(p["nb"] == 0 and p["hbi"] for p in s["parts"]) for s in mid["shapes"]):
                         known_crash = True
             if known_crash:
-                rep.known_finding("C12-back-conversion-crash-empty-partition-bones", c[:200])
+                if report_finding(rep, "C12-back-conversion-crash-empty-partition-bones", c[:200], c, {"crash": crash}):
+                    nspec += 1
+                    continue
                 nknown += 1
             else:
                 rep.violation("conversion crashed (sanitizer/abort/timeout)", {"case": c, "family": FAM, "crash": crash})
@@ -687,8 +724,7 @@ def run(tier, seed, replay=None):
         "correspondence_mismatches": ncorr,
         "spec_failures_on_impl": nspec,
         "known_finding_hits": nknown,
-        "unproved": ["NifFile::OptimizeFor as a whole (skin partition conversion, weight transfer, shader flag edits, block deletion / sorting, save + reload): explored on the implementation, not modelled",
-                     "termination of the candidate search of RenameDuplicateShapes for arbitrary child lists (a pigeonhole argument): proved only under the hypotheses of C12_rename_distinct, where the first candidate is free"],
+        "unproved": ["NifFile::OptimizeFor as a whole (skin partition conversion, weight transfer, shader flag edits, block deletion / sorting, save + reload): explored on the implementation, not modelled"],
         "trusted_base": vlib.BASE_TRUSTED + [
             "level PARTIAL: the theorems cover renaming and list bookkeeping; the conversion as a whole is explored, not proved",
             "Python evaluation of the property's clauses on the dumps (tools/props/c12.py): shape matching by vertex positions, triangle sets up to rotation, binary16 / byte tolerances, weights within 1e-4 or one binary16 ulp",
@@ -697,6 +733,6 @@ def run(tier, seed, replay=None):
     })
     return rep.finish(cov, [
         "headParts only for models made of dynamic shapes (an unskinned BSDynamicTriShape loses its positions on reload: outside the quantifier)",
-        "C12_rename_distinct: no unnamed shape child, no child already named X_<number> for a shape name X; shapes directly below the root or below a direct child node of the root",
+        "C12_rename_distinct: no unnamed shape child; shapes directly below the root or below a direct child node of the root",
         "bookkeeping theorems: vertex and triangle arrays within the 16-bit counters of both formats",
     ])
